@@ -56,6 +56,8 @@ pub struct Cfg {
 pub enum Ev {
     /// bytes delivered to the terminal, one `print_char` per byte
     Rx { hex: String },
+    /// line fault: the terminal's own replies (SendString) so far are fed back into its input
+    Loopback,
     /// let decode thread `ticket` run to completion
     Release { ticket: usize },
     /// UI poll: `Buffer::update_sixel_threads`
